@@ -4,6 +4,7 @@ import (
 	"fmt"
 	"math/big"
 	"math/rand"
+	"runtime"
 	"strings"
 
 	"github.com/bnb-chain/tss-lib/v2/crypto"
@@ -62,6 +63,45 @@ func runC12(r *Run, rng *rand.Rand, thorough bool) {
 			for _, m := range mutationsOf(rng, c, ai, thorough) {
 				judge("proof:"+m.name, c.with(m), fmt.Sprintf("arg %d idx %d %s", ai, m.idx, m.name))
 			}
+		}
+		// the repeated parts are verified by worker goroutines: the tail indices again under processor counts that do
+		// not divide the repetition count (the verdict must not depend on how the work is split)
+		if c.sys == "mod" || c.sys == "dln" {
+			lists := []int{2, 5}
+			if c.sys == "dln" {
+				lists = []int{0, 1}
+			}
+			procsList := []int{3, 7}
+			if thorough {
+				procsList = []int{3, 6, 7, 9, 12, 32, 64}
+			}
+			prev := runtime.GOMAXPROCS(0)
+			for _, procs := range procsList {
+				runtime.GOMAXPROCS(procs)
+				for _, ai := range lists {
+					l := dInts(c.args[ai])
+					n := len(l)
+					idxs := []int{n - 1, n - 2, n - 1 - rng.Intn(16), n - 1 - rng.Intn(n)}
+					for _, i := range idxs {
+						if i < 0 || i >= n {
+							continue
+						}
+						for _, v := range []*big.Int{bi(1), new(big.Int).Add(l[i], bi(1))} {
+							l2 := append([]*big.Int{}, l...)
+							l2[i] = v
+							args := append([]string{}, c.args...)
+							args[ai] = eInts(l2)
+							gg := goOps[c.op](args)
+							r.Evals++
+							r.Dist[fmt.Sprintf("%s/procs=%d", c.sys, procs)]++
+							r.Assert(gg != "accept", c.sys+"/proof:procs", "altered-proof-rejected", func() string {
+								return fmt.Sprintf("%s arg %d idx %d replaced, GOMAXPROCS=%d -> %s", c.sys, ai, i, procs, gg)
+							})
+						}
+					}
+				}
+			}
+			runtime.GOMAXPROCS(prev)
 		}
 		// shift attacks along every relation the verifier checks: a commitment is moved along one base and the
 		// response(s) that multiply that base are moved with it, so the checked equation still holds and only the
